@@ -52,7 +52,7 @@ POOL = {
 }
 POOL["js"] = POOL["ts"]
 EXT = {"py": ".py", "ts": ".ts", "js": ".js"}
-DECOS = ["plain", "indent", "blank", "comment", "trailing", "tabs-spaces"]
+DECOS = ["plain", "indent", "blank", "comment", "trailing", "tabs-spaces", "quote-trailing", "formfeed"]
 
 
 def _uniq(lang, n):
@@ -80,7 +80,7 @@ def _decorate(lang, run, deco, ind):
         if deco == "comment" and i == 1:
             out.append(ind + f"{cm} an explanatory remark")
         line = ind + s
-        if deco == "trailing" and i == 0:
+        if deco in ("trailing", "quote-trailing") and i == 0:
             line += f"  {cm} why this matters"
         if deco == "tabs-spaces" and lang != "py" and i == 0:
             line = ind + s.replace(" = ", "  =  ")
@@ -91,6 +91,9 @@ def _decorate(lang, run, deco, ind):
 def build(lang, k, L, m, placement, deco, start=1, nfiles=2):
     """-> (files {name: text}, occurrences [(file, first_line, last_line)], run)"""
     run = POOL[lang][start : start + L]
+    if deco == "quote-trailing" and run:
+        # an apostrophe inside a double-quoted string, followed (in one copy only) by a comment
+        run = [('label = "job isn\'t queued"' if lang == "py" else 'const label = "job isn\'t queued";')] + run[1:]
     ind = "    " if lang == "py" else "  "
     files, occ = {}, []
     counter = itertools.count(1)
@@ -127,6 +130,10 @@ def build(lang, k, L, m, placement, deco, start=1, nfiles=2):
                 lines.append("}")
             lines.append("")
         del nf
+        if deco == "formfeed" and fi == 0:
+            # a page break (form feed) on a line of its own above everything: one physical line
+            lines.insert(0, "\x0c")
+            occ[:] = [(f, a + 1, b + 1) if f == f"f{fi}{EXT[lang]}" else (f, a, b) for (f, a, b) in occ]
         files[f"f{fi}{EXT[lang]}"] = "\n".join(lines) + "\n"
     return files, occ, run
 
